@@ -14,11 +14,6 @@
 //@ enforce Pipeline_append__QSharedPointer_Handler
 #include "models/ident.h"
 
-int __CPROVER_uninterpreted_hash_merge(int base, int overlay);   /* QHash::insert(other): identity of the merged map */
-
-void QVariantHash_insert__QVariantHash(QVariantHash *self, QVariantHash other)
-__CPROVER_assigns(self->id)
-__CPROVER_ensures(self->id == __CPROVER_uninterpreted_hash_merge(__CPROVER_old(self->id), other.id));
 
 typedef struct { int id; } std_function_boolLogMessageR;
 typedef struct { Handler *p; } QSharedPointer_Handler;
